@@ -115,6 +115,8 @@ pub struct Model<'a> {
     pub pos: Option<u64>,
     pub len: u64,
     pub eof_seen: bool,
+    /// the cursor was re-established from delivered data after a failed seek
+    pub resynced: bool,
 }
 
 #[derive(Clone)]
@@ -130,7 +132,7 @@ pub fn model_for<'a>(front: Front, file: &'a TestFile, refbytes: &'a [u8]) -> Mo
         Front::Sample => file.pcm.len() as u64,
         Front::Channel => (file.pcm.len() / file.sig.ch as usize) as u64,
     };
-    Model { file, refbytes, pos: Some(0), len, eof_seen: false }
+    Model { file, refbytes, pos: Some(0), len, eof_seen: false, resynced: false }
 }
 
 type V = (String, String);
@@ -194,6 +196,53 @@ impl Model<'_> {
         }
         Ok(n)
     }
+    // ---- after a FAILED seek the position is unspecified, but the property still forbids "stale or misplaced data": whatever
+    // is delivered next must be a piece of the stream, and everything after it must continue from there. The cursor is
+    // re-synchronised on the first delivered chunk when that chunk occurs exactly once in the reference (if it occurs several
+    // times — short chunks, low depths — the position stays unknown and nothing is demanded).
+    fn resync<T: PartialEq>(&mut self, reference: &[T], got: &[T], unit: usize) -> Result<(), V> {
+        if self.pos.is_some() || got.is_empty() || got.len() > reference.len() {
+            if self.pos.is_none() && got.len() > reference.len() {
+                return Err(("misplaced-data-after-failed-seek".into(), format!("{} units delivered after a failed seek, the whole stream has {}", got.len(), reference.len())));
+            }
+            return Ok(());
+        }
+        let mut found: Option<usize> = None;
+        let mut count = 0;
+        for p in (0..=reference.len() - got.len()).step_by(unit.max(1)) {
+            if reference[p..p + got.len()] == *got {
+                count += 1;
+                found.get_or_insert(p);
+            }
+        }
+        match count {
+            0 => Err(("misplaced-data-after-failed-seek".into(), format!("the {} units delivered after a failed seek are not a piece of the stream", got.len()))),
+            1 => {
+                self.pos = Some((found.unwrap() / unit.max(1)) as u64);
+                self.resynced = true;
+                Ok(())
+            }
+            _ => Ok(()),
+        }
+    }
+    fn check_bytes_mut(&mut self, got: &[u8]) -> Result<(), V> {
+        let r = self.refbytes;
+        self.resync(r, got, 1)?;
+        self.check_bytes(got).map_err(|(c, d)| if self.resynced { (format!("{c}-after-failed-seek"), d) } else { (c, d) })
+    }
+    fn check_samples_mut(&mut self, got: &[i32]) -> Result<(), V> {
+        let f = self.file;
+        self.resync(&f.pcm, got, 1)?;
+        self.check_samples(got).map_err(|(c, d)| if self.resynced { (format!("{c}-after-failed-seek"), d) } else { (c, d) })
+    }
+    fn check_channels_mut(&mut self, got: &[Vec<i32>]) -> Result<usize, V> {
+        if self.pos.is_none() && !got.is_empty() && got.iter().all(|c| c.len() == got[0].len()) && got.len() == self.file.sig.ch as usize && !got[0].is_empty() {
+            let inter = crate::codec::interleave(got);
+            let f = self.file;
+            self.resync(&f.pcm, &inter, got.len())?;
+        }
+        self.check_channels(got).map_err(|(c, d)| if self.resynced { (format!("{c}-after-failed-seek"), d) } else { (c, d) })
+    }
     fn advance(&mut self, k: usize) {
         if let Some(p) = self.pos.as_mut() {
             *p += k as u64;
@@ -210,6 +259,7 @@ impl Model<'_> {
                     }
                 }
                 self.pos = Some(t);
+                self.resynced = false;
                 self.eof_seen = false;
                 Ok("seek-ok".into())
             }
@@ -252,7 +302,7 @@ fn byte_step<R: Read + Seek, E: flac_codec::byteorder::Endianness>(r: &mut FlacB
                     if k > n {
                         return Err(("read-overrun".into(), format!("read({n}) returned {k}")));
                     }
-                    m.check_bytes(&buf[..k])?;
+                    m.check_bytes_mut(&buf[..k])?;
                     m.advance(k);
                     if k == 0 {
                         m.eof_seen = true;
@@ -271,7 +321,7 @@ fn byte_step<R: Read + Seek, E: flac_codec::byteorder::Endianness>(r: &mut FlacB
         "fill" | "fc" => match r.fill_buf() {
             Ok(b) => {
                 let b = b.to_vec();
-                m.check_bytes(&b)?;
+                m.check_bytes_mut(&b)?;
                 if b.is_empty() {
                     m.eof_seen = true;
                 }
@@ -333,7 +383,7 @@ fn sample_step<R: Read + Seek>(r: &mut FlacSampleReader<R>, m: &mut Model, op: &
                     if k > n {
                         return Err(("read-overrun".into(), format!("read({n}) returned {k}")));
                     }
-                    m.check_samples(&buf[..k])?;
+                    m.check_samples_mut(&buf[..k])?;
                     m.advance(k);
                     if k == 0 {
                         m.eof_seen = true;
@@ -352,7 +402,7 @@ fn sample_step<R: Read + Seek>(r: &mut FlacSampleReader<R>, m: &mut Model, op: &
         "fill" | "fc" => match r.fill_buf() {
             Ok(b) => {
                 let b = b.to_vec();
-                m.check_samples(&b)?;
+                m.check_samples_mut(&b)?;
                 if b.is_empty() {
                     m.eof_seen = true;
                 }
@@ -390,7 +440,7 @@ fn channel_step<R: Read + Seek>(r: &mut FlacChannelReader<R>, m: &mut Model, op:
             Ok(b) => {
                 let owned: Vec<Vec<i32>> = b.iter().map(|c| c.to_vec()).collect();
                 drop(b);
-                let n = m.check_channels(&owned)?;
+                let n = m.check_channels_mut(&owned)?;
                 if n == 0 {
                     m.eof_seen = true;
                 }
